@@ -59,6 +59,7 @@ func (sh compliantShape) answer(s *hSim, nonce string) idpAnswer {
 func loginFlow(r *Run, c hCfg, sh compliantShape, path, query string, further int) {
 	s := newHSim(r, c)
 	defer s.close()
+	c = s.w.cfg // the configuration in force (endpoints may come from the provider's discovery document)
 	fail := func(what string, extra map[string]any) {
 		s.violate("C03", what, extra)
 	}
